@@ -46,7 +46,7 @@ class LivelockAbort(BaseException):
 
 class World:
     def __init__(self, prog, nroots, nflags=2, nlocks=2, max_turns=5000, nqueues=2, nchans=2,
-                 nres=2, resinit=2, reskind='res', horizon=float('inf')):
+                 nres=2, resinit=2, reskind='res', horizon=float('inf'), nt=1, resinitb=0):
         # prog: list of op lists, index a-1
         self.prog = prog
         self.nroots = nroots
@@ -63,7 +63,9 @@ class World:
         self.strict = horizon != float('inf') and False
         self.pipe = None
         mk = Resources if reskind == 'res' else Capacities
-        self.pools = {i + 1: mk(a=resinit) for i in range(nres)}   # pool id -> supply / open share
+        # nt = 2: every supply has two resource types, `a` and `b` (levels and amounts are vectors)
+        self.nt = nt
+        self.pools = {i + 1: (mk(a=resinit) if nt == 1 else mk(a=resinit, b=resinitb)) for i in range(nres)}   # pool id -> supply / open share
         self.npool = nres
         self.nres = nres
         self.nitem = 0
@@ -594,6 +596,18 @@ class Puppet:
     async def op_claim(self, op):
         await self.borrow_block(op, claim=True)
 
+    def amounts(self, op, key='amt', keyb='amtb'):
+        """keyword amounts of an operation; a type whose amount is zero is left out every other time (missing
+        types count as zero)"""
+        kw = {'a': op[key]}
+        b = op.get(keyb, 0)
+        if self.w.nt == 2 and (b or (op[key] + self.i) % 2 == 0):
+            kw['b'] = b
+        return kw
+
+    def levelb(self, pool):
+        return pool.levels.b if self.w.nt == 2 else 0
+
     async def borrow_block(self, op, claim):
         w = self.w
         p, amt = op['p'], op['amt']
@@ -601,8 +615,9 @@ class Puppet:
         sh = w.npool + 1
         w.npool = sh
         name = 'claim' if claim else 'borrow'
-        block = pool.claim(a=amt) if claim else pool.borrow(a=amt)
-        self.emit('b', op=name, p=p, amt=amt, sh=sh)
+        kw = self.amounts(op)
+        block = pool.claim(**kw) if claim else pool.borrow(**kw)
+        self.emit('b', op=name, p=p, amt=amt, amtb=op.get('amtb', 0), sh=sh)
         phase = 'enter'
         try:
             async with block as share:
@@ -630,12 +645,20 @@ class Puppet:
 
         async def f():
             if kind == 'inc':
-                await pool.increase(a=op['amt'])
+                await pool.increase(**self.amounts(op))
             elif kind == 'dec':
-                await pool.decrease(a=op['amt'])
+                await pool.decrease(**self.amounts(op))
             else:
-                await pool.set(a=op['amt'])
-        await self.leaf(op, f, {'p': op['p'], 'amt': op['amt']}, tag={'p': op['p']})
+                # set() replaces only the types it names
+                mask = op.get('mask', 1)
+                kw = {}
+                if mask in (1, 3):
+                    kw['a'] = op['amt']
+                if mask in (2, 3):
+                    kw['b'] = op.get('amtb', 0)
+                await pool.set(**kw)
+        await self.leaf(op, f, {'p': op['p'], 'amt': op['amt'], 'amtb': op.get('amtb', 0),
+                                'mask': op.get('mask', 1 if self.w.nt == 1 else 3)}, tag={'p': op['p']})
 
     async def op_inc(self, op):
         await self.rchange(op, 'inc')
@@ -652,17 +675,17 @@ class Puppet:
 
         shared = bool(op.get('shared'))
         if shared:      # one comparison object per (supply, relation, value), kept by the world, shared by its waiters
-            key = (op['p'], rel, op['v'])
+            key = (op['p'], rel, op['v'], op.get('vb', 0))
             if key not in self.w.cmps:
-                self.w.cmps[key] = getattr(operator, rel)(self.w.pools[op['p']], {'a': op['v']})
+                self.w.cmps[key] = getattr(operator, rel)(self.w.pools[op['p']], self.amounts(op, 'v', 'vb'))
             cond = self.w.cmps[key]
 
         async def f():
-            await (cond if shared else getattr(operator, rel)(self.w.pools[op['p']], {'a': op['v']}))
-        await self.leaf(op, f, {'p': op['p'], 'v': op['v'], 'rel': rel, 'shared': shared}, tag={'p': op['p']})
+            await (cond if shared else getattr(operator, rel)(self.w.pools[op['p']], self.amounts(op, 'v', 'vb')))
+        await self.leaf(op, f, {'p': op['p'], 'v': op['v'], 'vb': op.get('vb', 0), 'rel': rel, 'shared': shared, 'nt': self.w.nt}, tag={'p': op['p']})
 
     async def op_levels(self, op):
-        self.emit('p', op='levels', p=op['p'], v=self.w.pools[op['p']].levels.a)
+        self.emit('p', op='levels', p=op['p'], v=self.w.pools[op['p']].levels.a, vb=self.levelb(self.w.pools[op['p']]))
 
     # ------------------------------------------------------------ block ops
     async def op_enter(self, op):
@@ -753,15 +776,16 @@ def install_livelock_guard():
 
 
 def run_program(prog, nroots, nflags=2, nlocks=2, start=0, nqueues=2, nchans=2, nres=2, resinit=2, reskind='res',
-                pipe=None, head=None, horizon=float('inf')):
+                pipe=None, head=None, horizon=float('inf'), nt=1, resinitb=0):
     """execute one program on the real usim; returns (events, outcome)"""
     world = World(prog, nroots, nflags, nlocks, nqueues=nqueues, nchans=nchans, nres=nres, resinit=resinit,
-                  reskind=reskind, horizon=horizon)
+                  reskind=reskind, horizon=horizon, nt=nt, resinitb=resinitb)
     if pipe is not None:
         world.pipe = UnboundedPipe() if pipe == 0 else Pipe(throughput=pipe)
     if head is not None:
         world.log.append(head)
-    world.log.append({'e': 'init', 'a': 0, 'res': [world.pools[i + 1].levels.a for i in range(world.nres)]})
+    world.log.append({'e': 'init', 'a': 0, 'res': [world.pools[i + 1].levels.a for i in range(world.nres)],
+                      'resb': [world.pools[i + 1].levels.b if nt == 2 else 0 for i in range(world.nres)]})
     roots = [Puppet(world, a + 1).main() for a in range(nroots)]
     outcome = {'k': 'ok'}
     try:
@@ -796,6 +820,7 @@ def run_program(prog, nroots, nflags=2, nlocks=2, start=0, nqueues=2, nchans=2, 
         fin['free'] = probe_locks(world)
         fin['drain'] = drain_queues(world)
     fin['levels'] = [world.pools[i + 1].levels.a for i in range(world.nres)]
+    fin['levelsb'] = [world.pools[i + 1].levels.b if nt == 2 else 0 for i in range(world.nres)]
     world.log.append(fin)
     return world.log, outcome
 
